@@ -132,7 +132,8 @@ Inductive c06_case :=
 (* slots: the writes as the implementation resolved them (successful ones complete, in revision order);
    a range read of prefix P served at R0 (header revision) returned kv0; a watch on P from R0+1 delivered evs
    (complete up to the last write); lists: range reads at explicit revisions R' >= R0 *)
-| KLw (P : bytes) (slots : list wevent) (R0 : N) (kv0 : store) (evs : list event) (lists : list (N * store)).
+| KLw (P : bytes) (slots : list wevent) (R0 : N) (kv0 : store) (wok : bool) (evs : list event) (lists : list (N * store)).
+   (* wok = false: the watch was refused (then evs = [] and only the range reads are compared) *)
 
 Definition evs_eqb6 (a b : list event) : bool := list_eqb ev_eqb a b.
 
@@ -151,10 +152,10 @@ Definition delete_slots_ok (slots : list wevent) : bool :=
 
 Definition c06_check (c : c06_case) : bool :=
   match c with
-  | KLw P slots R0 kv0 evs lists =>
+  | KLw P slots R0 kv0 wok evs lists =>
       let V := versions_of slots in
       store_eqb kv0 (in_prefix P (snapshot V R0)) &&
-      evs_eqb6 evs (filter (in_window R0 top P) (events_of slots)) &&
+      (negb wok || evs_eqb6 evs (filter (in_window R0 top P) (events_of slots))) &&
       forallb (fun rl => store_eqb (snd rl) (in_prefix P (snapshot V (fst rl)))) lists &&
       delete_slots_ok slots
   end.
@@ -163,7 +164,8 @@ Definition c06_check (c : c06_case) : bool :=
    every later range result *)
 Definition c06_oracle (c : c06_case) : option N :=
   match c with
-  | KLw P slots R0 kv0 evs lists =>
+  | KLw P slots R0 kv0 wok evs lists =>
+      if negb wok then None else
       ok_if (forallb (fun rl => (fst rl <? R0) ||
                                 store_eqb (apply_events (filter (fun e => e_rev e <=? fst rl) evs) kv0) (snd rl)) lists)
   end.
